@@ -336,30 +336,30 @@ func oaDocs(tier string) []oaDoc {
 			{Path: "/b", Method: "POST", Params: []oaParam{{Name: "payload", In: "body", Kind: "Other", Required: true}}, Resps: []oaResp{{Code: "201", Shape: "ref"}}},
 		}})
 		// a body consumed under one, two and three media types (Swagger 2)
-	if v == 2 {
-		for n := 1; n <= 3; n++ {
-			out = append(out, oaDoc{Version: 2, Ops: []oaOp{{Path: "/pets", Method: "POST", Consumes: []string{"application/json", "application/xml", "text/plain"}[:n],
-				Params: []oaParam{{Name: "pet", In: "body", Kind: "Other", Required: true}}, Resps: []oaResp{{Code: "200", Shape: "ref"}}}}})
-		}
-	}
-	// inline-object responses of several operations next to a definition that is an array of inline objects
-	for _, withArr := range []bool{false, true} {
-		if v != 2 {
-			break // the OpenAPI 3 importer wraps responses in a {header, body} type: a different representation
-		}
-		for nops := 1; nops <= 3; nops++ {
-			var ops []oaOp
-			for i := 0; i < nops; i++ {
-				ops = append(ops, oaOp{Path: fmt.Sprintf("/in%d", i), Method: []string{"GET", "POST", "PUT"}[i], Resps: []oaResp{{Code: "200", Shape: "inline", Prop: fmt.Sprintf("only%d", i)}}})
+		if v == 2 {
+			for n := 1; n <= 3; n++ {
+				out = append(out, oaDoc{Version: 2, Ops: []oaOp{{Path: "/pets", Method: "POST", Consumes: []string{"application/json", "application/xml", "text/plain"}[:n],
+					Params: []oaParam{{Name: "pet", In: "body", Kind: "Other", Required: true}}, Resps: []oaResp{{Code: "200", Shape: "ref"}}}}})
 			}
-			d := oaDoc{Version: v, Ops: ops}
-			if withArr {
-				d.Schemas = []oaSchema{{Name: "Lines", ArrayInline: true, Props: []oaProp{{Name: "total", Kind: "integer"}}}, {Name: "Zed", Props: []oaProp{{Name: "nested", Kind: "object"}}}}
-			}
-			out = append(out, d)
 		}
-	}
-	// path-item level parameters shared by several methods, each with parameters of its own
+		// inline-object responses of several operations next to a definition that is an array of inline objects
+		for _, withArr := range []bool{false, true} {
+			if v != 2 {
+				break // the OpenAPI 3 importer wraps responses in a {header, body} type: a different representation
+			}
+			for nops := 1; nops <= 3; nops++ {
+				var ops []oaOp
+				for i := 0; i < nops; i++ {
+					ops = append(ops, oaOp{Path: fmt.Sprintf("/in%d", i), Method: []string{"GET", "POST", "PUT"}[i], Resps: []oaResp{{Code: "200", Shape: "inline", Prop: fmt.Sprintf("only%d", i)}}})
+				}
+				d := oaDoc{Version: v, Ops: ops}
+				if withArr {
+					d.Schemas = []oaSchema{{Name: "Lines", ArrayInline: true, Props: []oaProp{{Name: "total", Kind: "integer"}}}, {Name: "Zed", Props: []oaProp{{Name: "nested", Kind: "object"}}}}
+				}
+				out = append(out, d)
+			}
+		}
+		// path-item level parameters shared by several methods, each with parameters of its own
 		sharedPool := []oaParam{{Name: "id", In: "path", Kind: "integer", Required: true}, {Name: "s1", In: "query", Kind: "string", Required: true}, {Name: "s2", In: "query", Kind: "integer"},
 			{Name: "X-S3", In: "header", Kind: "string", Required: true}, {Name: "s4", In: "query", Kind: "boolean"}, {Name: "s5", In: "query", Kind: "string"}, {Name: "s6", In: "query", Kind: "string"}}
 		ownPool := map[string][]oaParam{
